@@ -104,6 +104,10 @@ class Report:
     for s in r.get('samples', [])[:3]:
       if len(self.samples) < 12:
         self.samples.append(s)
+    if job.get('name') == 'twin' or r.get('name') == 'twin':
+      # the assert-False twin's obligations are refuted on purpose
+      self.agg['obligations'] -= r.get('obligations', 0)
+      self.agg['discharged'] -= r.get('discharged', 0)
     for v in r.get('violations', []):
       v = dict(v)
       v['job'] = name
